@@ -321,13 +321,19 @@ def batch_stops(c: int, mx: int) -> bool:
     hx.begin()
     which = hx.P['which']
     if which == 'batch':
-        recs = B._run_model_for_batch(BM, {"c": c}, collectors="rec", max_timesteps=mx)
+        res = B.batch_run(BM, {"c": c}, collectors="rec", processes=1, max_timesteps=mx)       # (public entry point)
+        if len(res) != 1:
+            return hx.end(hx.fail("one execution, one result", got=len(res)))
+        recs = res[0]
         steps_expected = min(c, mx)            # at timestep c the stopper (priority 5) completes before the collector
         if recs != list(range(steps_expected)):
             return hx.end(hx.fail("records of a batch run", got=recs, exp=list(range(steps_expected))))
     else:
         del _LAST[:]
-        out = B._run_model_for_search(BM, _score, 1, {"c": c}, max_timesteps=mx)
+        best, results = B.grid_search(BM, {"c": c}, _score, processes=1, repetitions=1, max_timesteps=mx)   # (public entry point)
+        if len(results) != 1 or len(_LAST) != 1:
+            return hx.end(hx.fail("one combination, one execution", results=len(results), executions=len(_LAST)))
+        out = results[0]
         final = min(c + 1, mx)                 # completing timestep still counts as a step
         model = _LAST[0]
         if out['records'] != [final] or model.systems.timestep != final:
@@ -372,5 +378,5 @@ def obligations(tier):
         X("two_later_requests", two_later_requests, labels=("done",), timeout=600, encoded=enc),
         X("batch_stops", batch_stops, parts=[{"which": w, "N": N} for w in ("batch", "search")],
           labels=("completed_first", "limit_first"), timeout=600,
-          encoded=(B._run_model_for_batch, B._run_model_for_search), bounds={"completion time, step limit": "0..%d" % N}),
+          encoded=(B.batch_run, B.grid_search), bounds={"completion time, step limit": "0..%d" % N}),
     ]
